@@ -58,6 +58,7 @@ pub struct RunLog {
     pub all_grows: Vec<(usize, Option<usize>)>,
     pub reads: u64,
     pub interrupts: u64,
+    pub false_eofs: u64,
     pub faults: u64,
     pub seeks: u64,
     pub eofs: u64,
@@ -173,7 +174,39 @@ fn fq_err(e: fastq::Error) -> (ErrObs, String) {
 
 pub fn fa_obs(r: &fasta::RefRecord) -> RecObs {
     use fasta::Record;
-    let lines: Vec<Vec<u8>> = r.seq_lines().map(|l| l.to_vec()).collect();
+    // The way the lines are walked varies with the record (a pure function of it): external
+    // iteration, internal iteration from either end (`fold` / `rfold`, which an iterator may
+    // override), and internal iteration of a partly consumed iterator. All of them are the same
+    // view of the record.
+    let head = r.head();
+    let sel = head.iter().fold(r.seq().len() as u64, |h, b| h.wrapping_mul(31).wrapping_add(*b as u64)) % 6;
+    let lines: Vec<Vec<u8>> = match sel {
+        0 | 1 | 2 => r.seq_lines().map(|l| l.to_vec()).collect(),
+        3 => {
+            let mut v = vec![];
+            r.seq_lines().for_each(|l| v.push(l.to_vec()));
+            v
+        }
+        4 => {
+            let mut v = r.seq_lines().rfold(vec![], |mut a, l| {
+                a.push(l.to_vec());
+                a
+            });
+            v.reverse();
+            v
+        }
+        _ => {
+            let mut it = r.seq_lines();
+            let mut v = vec![];
+            if let Some(l) = it.next() {
+                v.push(l.to_vec());
+            }
+            let back = it.next_back().map(|l| l.to_vec());
+            it.for_each(|l| v.push(l.to_vec()));
+            v.extend(back);
+            v
+        }
+    };
     let mut seq = vec![];
     for l in &lines {
         seq.extend_from_slice(l);
@@ -272,18 +305,24 @@ impl Api for Fa {
         let mut it = r.into_records();
         let mut outs = vec![];
         let mut nones = 0;
-        while outs.len() < max && nones < 2 {
+        // errors in a row: a reader that keeps refusing (BufferLimit) never reaches the end; 40
+        // repetitions show that as well as 4 x input length would
+        let mut errs_in_a_row = 0;
+        while outs.len() < max && nones < 2 && errs_in_a_row < 40 {
             match it.next() {
                 None => {
                     nones += 1;
+                    errs_in_a_row = 0;
                     outs.push(Out::End);
                 }
                 Some(Err(e)) => {
+                    errs_in_a_row += 1;
                     let (o, m) = fa_err(e);
                     outs.push(Out::Err(o, m));
                 }
                 Some(Ok(rec)) => {
                     nones = 0;
+                    errs_in_a_row = 0;
                     monitors::fasta_owned(&rec, ctx);
                     outs.push(Out::Rec(RecObs {
                         head: rec.head,
@@ -374,18 +413,24 @@ impl Api for Fq {
         let mut it = r.into_records();
         let mut outs = vec![];
         let mut nones = 0;
-        while outs.len() < max && nones < 2 {
+        // errors in a row: a reader that keeps refusing (BufferLimit) never reaches the end; 40
+        // repetitions show that as well as 4 x input length would
+        let mut errs_in_a_row = 0;
+        while outs.len() < max && nones < 2 && errs_in_a_row < 40 {
             match it.next() {
                 None => {
                     nones += 1;
+                    errs_in_a_row = 0;
                     outs.push(Out::End);
                 }
                 Some(Err(e)) => {
+                    errs_in_a_row += 1;
                     let (o, m) = fq_err(e);
                     outs.push(Out::Err(o, m));
                 }
                 Some(Ok(rec)) => {
                     nones = 0;
+                    errs_in_a_row = 0;
                     monitors::fastq_owned(&rec, ctx);
                     outs.push(Out::Rec(RecObs {
                         head: rec.head,
@@ -758,6 +803,7 @@ fn drive_api<A: Api>(scn: &ReadScn, cfg: &Cfg, targets: &SeekTargets) -> RunLog 
     log.all_grows = s.all_grows.clone();
     log.reads = s.total_reads;
     log.interrupts = s.total_interrupts;
+    log.false_eofs = s.false_eofs;
     log.faults = s.total_faults;
     log.seeks = s.total_seeks;
     log.eofs = s.total_eofs;
